@@ -418,6 +418,24 @@ func (h *hist) update(n *hnode) {
 
 // leftovers counts what the graph about to be saved holds besides live nodes.
 func (h *hist) leftovers() {
+	var st metaStats
+	st.walk(h.meta, 0)
+	if st.emptyArrays > 0 {
+		h.res.Count("saved_graphs_with_an_empty_array_in_metadata", 1)
+		h.res.Count("empty_arrays_in_saved_metadata", int64(st.emptyArrays))
+	}
+	if st.emptyObjects > 0 {
+		h.res.Count("saved_graphs_with_an_empty_object_in_metadata", 1)
+	}
+	if st.nulls > 0 {
+		h.res.Count("saved_graphs_with_null_in_metadata", 1)
+	}
+	if st.depth >= 8 {
+		h.res.Count("saved_graphs_with_metadata_nested_8_deep", 1)
+	}
+	if st.unicode {
+		h.res.Count("saved_graphs_with_non_ascii_metadata_keys", 1)
+	}
 	foreign := 0
 	for _, n := range h.nodes {
 		if n.foreign {
@@ -505,7 +523,33 @@ func (h *hist) metaSet() {
 	r := h.r
 	var path []string
 	var value any
-	switch r.Intn(4) {
+	switch r.Intn(8) {
+	case 4, 5: // a field of a node's or a note's metadata, values at the edges of JSON
+		var class string
+		value, class = genMetaEdge(r)
+		field := []string{"tags", "groups", "label", "collapsed", "extra"}[r.Intn(5)]
+		if r.Intn(2) == 0 && len(h.nodes) > 0 {
+			path = []string{"nodes", h.nodes[r.Intn(len(h.nodes))].id, field}
+		} else {
+			path = []string{"notes", fmt.Sprintf("note-%d", r.Intn(4)), field}
+		}
+		h.res.SetAdd("metadata_edge_classes", class)
+	case 6, 7: // the same anywhere else, also under keys that are not ASCII
+		var class string
+		value, class = genMetaEdge(r)
+		path = []string{"custom"}
+		for i, n := 0, r.Intn(3); i < n; i++ {
+			path = append(path, fmt.Sprintf("k%d", r.Intn(4)))
+		}
+		last := fmt.Sprintf("e%d", r.Intn(5))
+		if r.Intn(3) == 0 {
+			last = strings.ReplaceAll(unicodeKeys[r.Intn(len(unicodeKeys))], ".", "")
+			if last == "" {
+				last = "ø"
+			}
+		}
+		path = append(path, last)
+		h.res.SetAdd("metadata_edge_classes", class)
 	case 0: // what the UI posts when a node is dragged
 		id := fmt.Sprintf("Node-%d", r.Intn(len(h.nodes)+3))
 		if r.Intn(2) == 0 && len(h.nodes) > 0 {
